@@ -6,7 +6,7 @@ from ..core import Result
 PID = "C14"
 LEVEL = "exploration"
 RULE = (
-    'Hypothesis-generated products and workflows (0-5 components, flat and nested, arbitrary task-to-component assignment, components without tasks, mixed default progress) simulated once. Oracle per step on the live updated/allocated/recorded snapshots and on the logs: FINISHED <=> all tasks FINISHED, any task WORKING => WORKING, not NONE while a task is READY/WORKING, never back to NONE, never leaves FINISHED. Non-trivial = a component whose tasks were in different states at some step; distinct by spec hash.'
+    'Hypothesis-generated products and workflows (0-5 components, flat and nested, arbitrary task-to-component assignment, components without tasks, tasks listed by a component without a back link or by two components, mixed default progress) simulated once. Oracle per step on the live updated/allocated/recorded snapshots and on the logs: FINISHED <=> all tasks FINISHED, any task WORKING => WORKING, not NONE while a task is READY/WORKING, never back to NONE, never leaves FINISHED; the log relation is re-checked on a run paused in the middle and resumed, in memory and through a JSON round trip. Non-trivial = a component whose tasks were in different states at some step; distinct by spec hash.'
 )
 ASSUMPTIONS = [
     "skill standard deviations are 0 (deterministic skills); unit_time=1; task_performed_mode='multi-workers'",
@@ -22,14 +22,32 @@ CFG = gen.Cfg(facilities=True, nested="assembly", max_time=[40, 80])
 CFG_FREE = gen.Cfg(facilities=True, nested="free", max_wps=0, max_time=[40, 80])
 
 
+def _with_one_sided_links(cfg):
+    """arbitrary forests without workplaces, plus tasks that a component lists without a back link
+    (BaseComponent(targeted_task_list=[...])) and tasks listed by two components"""
+    from hypothesis import strategies as st
+
+    @st.composite
+    def build(draw):
+        spec = draw(gen.model_spec(cfg))
+        n = len(spec["tasks"])
+        for c in spec["comps"]:
+            if draw(st.integers(0, 2)) == 0:
+                c["extra_tasks"] = sorted(set(draw(st.lists(st.integers(0, n - 1), min_size=1, max_size=2))))
+        return spec
+
+    return build()
+
+
 def strategy(tier):
     from hypothesis import strategies as st
 
     if tier == "quick":
-        return st.one_of(gen.model_spec(CFG), gen.model_spec(CFG_FREE))
+        return st.one_of(gen.model_spec(CFG), gen.model_spec(CFG_FREE), _with_one_sided_links(CFG_FREE))
     return st.one_of(
         gen.model_spec(CFG.copy(max_tasks=12, max_comps=7)),
         gen.model_spec(CFG_FREE.copy(max_tasks=12, max_comps=7)),
+        _with_one_sided_links(CFG_FREE.copy(max_tasks=12, max_comps=7)),
     )
 
 
@@ -40,7 +58,23 @@ def budget(tier):
 
 
 def check(spec):
+    from .. import spec as S
+
     res = Result()
     sim = simcheck.Sim(spec)
     simcheck.check_c14(sim, res)
+    if res.violations or sim.N < 2:
+        return res
+    # the same relation after a pause + resume, and after a pause + JSON round trip + resume
+    k = sim.N // 2
+    h = S.build(spec)
+    S.simulate(h.project, dict(spec["opts"], max_time=k))
+    S.simulate(h.project, spec["opts"], initialize_state_info=False, initialize_log_info=False)
+    simcheck.check_c14_logs(h.project, res, "resumed")
+    h = S.build(spec)
+    S.simulate(h.project, dict(spec["opts"], max_time=k))
+    p2, _ = S.json_roundtrip(h.project, "c14.json")
+    S.simulate(p2, spec["opts"], initialize_state_info=False, initialize_log_info=False)
+    simcheck.check_c14_logs(p2, res, "json_resumed")
+    res.stats["resumed_runs"] += 2
     return res
